@@ -519,4 +519,24 @@ theorem Cell_get_data_bytes_frame (H) (σ : State) (self : Nat) :
   all_goals (intro j hj; have : j ≠ σ.nBit := by omega
              simp [this])
 
+/-- the scratch run of `get_data_bytes` leaves the heap exactly as it was -/
+theorem scratch_get_data_bytes (H) (σ : State) (self : Nat) : Py.Heap.scratch σ (Cell_get_data_bytes H σ self) = some σ := by
+  obtain ⟨σ', v, h0, h1, h2, h3, h4, h5, _, _⟩ := Cell_get_data_bytes_frame H σ self
+  rw [h0]
+  simp only [Py.Heap.scratch, Option.map_some, Option.some.injEq, Py.Heap.dropScratch]
+  refine state_ext ?_ rfl h2 h5 h3 h4
+  funext j
+  by_cases hj : j < σ.nBit
+  · simp [hj, h1 j hj]
+  · simp [hj]
+
+/-- `Cell(bits, refs, cell_type)` - the regenerated `__init__` - is the model's `cellCtor`: the new cell points at the caller's OWN two
+containers, its caches are fresh values, nothing that existed is changed; it raises exactly when the constructor refuses the content. -/
+theorem Cell___init___eq (H) (σ : State) (ub ur : Nat) (kind : Int) (hb : σ.has ub .ubits = true) (hr : σ.has ur .urefs = true) :
+    Py.Heap.result σ (Cell___init__ H σ (σ.obj ub).bitsId (σ.obj ur).refsId kind) = step H σ (.cellCtor ub ur kind) := by
+  simp only [step, hb, hr, Bool.and_self, if_true, Cell___init__, Py.Heap.newCell?]
+  cases hm : mkCellRec H σ (σ.obj ub).bitsId (σ.obj ur).refsId kind (σ.bitBuf (σ.obj ub).bitsId) (σ.refBuf (σ.obj ur).refsId) with
+  | none => simp [Py.Heap.result]
+  | some c => simp [Py.Heap.result, scratch_get_data_bytes]
+
 end TonVerif.Proofs.SrcHeap
